@@ -1,6 +1,6 @@
 (* C44 — Names and revision specs parse as documented.  Property theorems only. *)
 From Coq Require Import NArith List Bool.
-From Dolt Require Import Base.Str Gen.RefnameTable C44.Model C44.Spec C44.Corr C44.Proofs.
+From Dolt Require Import Base.Str Gen.RefnameTable Gen.C44SpecFuncs C44.Model C44.Spec C44.Corr C44.Proofs.
 Local Open Scope N_scope.
 
 Theorem C44_branch_names_follow_rules :
@@ -37,3 +37,8 @@ Theorem C44_regex_sources_pinned :
   invalid_branch_name_regex = expected_branch_regex /\ invalid_tag_name_regex = expected_tag_regex.
 Proof. exact (conj branch_regex_pinned tag_regex_pinned). Qed.
 Print Assumptions C44_regex_sources_pinned.
+
+Theorem C44_spec_digit_tests_pinned :
+  (forall b, go_is_digit b = is_digit b) /\ (forall n, go_is_valid_merge_spec n = ((n =? 1) || (n =? 2))).
+Proof. exact (conj go_is_digit_pinned go_is_valid_merge_spec_pinned). Qed.
+Print Assumptions C44_spec_digit_tests_pinned.
